@@ -1,32 +1,7 @@
 //! verif — property-based testing / fuzzing harness for autosar-data (one sub-command per property)
-mod adoc;
-mod audit;
-mod hist;
-mod histprops;
-mod inv;
-mod c01;
-mod c02;
-mod c06;
-mod c07;
-mod c08;
-mod c09;
-mod c12;
-mod c13;
-mod c14;
-mod c15;
-mod conc;
-mod sched;
-mod c17;
-mod inputs;
-mod loader;
-mod engine;
-mod rx;
-mod spec;
-mod c18;
-mod c19;
-mod c20;
 
-use engine::*;
+use verif::engine::*;
+use verif::*;
 
 fn replay_dispatch(ctx: &Ctx, id: &str, case: &serde_json::Value) {
     match id {
